@@ -206,7 +206,7 @@ func c13Rules() []string {
 	return out
 }
 
-var c13Entries = []string{"Struct", "StructRM", "ValidateStructTag", "Nested", "Var", "VarMulti", "Map", "MapFn", "Url", "UrlForFn", "VarForFn", "Helpers"}
+var c13Entries = []string{"Struct", "StructRM", "ValidateStructTag", "Nested", "Var", "VarMulti", "Map", "MapFn", "Url", "UrlForFn", "VarForFn", "Helpers", "NilFn", "FSPaths"}
 
 // C13Case: one call.
 type C13Case struct {
@@ -363,6 +363,28 @@ func runC13(c *C13Case) (panicked interface{}) {
 			_ = valid.UrlForFn(src, rule, customFn("call", "x"))
 		case "VarForFn":
 			_ = valid.VarForFn(src, customFn("call", "x"))
+		case "NilFn":
+			// a rule name bound to a nil function (a way to switch a rule off): never called
+			nilFns := valid.Name2FnMap{"phone": nil, "nosuch": nil, "to": nil, "required": nil, "json": nil}
+			_ = valid.StructForFns(src, rmAll(), nilFns)
+			_ = valid.MapFn(src, rmAll(), nilFns)
+			_ = valid.MapFn(map[string]string{"k": "abc", "z": ""}, rmAll(), nilFns)
+			_ = valid.VarForFn(src, nil)
+			_ = valid.UrlForFn(src, rule, nil)
+			_ = valid.UrlForFn("http://a.b/c?k=abc", "k", nil)
+			_ = valid.ValidStructForMyValidFn(src, "phone", nil)
+			_ = valid.NewVStruct().SetRule(rmAll()).SetValidFn("email", nil).SetValidFn("x", nil).Valid(src)
+			_ = valid.NewVVar().SetRules(rule, "email", "x").SetValidFn("email", nil).SetValidFn("x", nil).Valid("abc")
+			_ = valid.NewVUrl().SetRule(rmAll()).SetValidFn("email", nil).Valid("http://a.b/c?k=abc")
+		case "FSPaths":
+			// strings that name odd things in the file system (links to files / directories, a dangling link, a link loop)
+			for _, p := range []string{fsPaths.file, fsPaths.dir, fsPaths.missing, fsPaths.linkFile, fsPaths.linkDir, fsPaths.dangling, fsPaths.loop, "/dev/null", "/proc/self/fd/0", "", "."} {
+				_ = valid.Var(p, rule)
+				_ = valid.Var(p, "file", "dir", rule)
+				_ = valid.Map(map[string]string{"k": p, "z": p}, rmAll())
+				_ = valid.Struct(&lib.Leaf{Name: p, S: p}, rmAll())
+				_ = valid.Struct(&lib.Leaf{Name: p, S: p}, valid.RM{"Name": "file|not a file", "S": "dir"})
+			}
 		case "Helpers":
 			_ = valid.ValidNamesSplit(rule)
 			_, _, _ = valid.ParseValidNameKV(rule)
@@ -378,6 +400,8 @@ func runC13(c *C13Case) (panicked interface{}) {
 }
 
 func TestC13(t *testing.T) {
+	cleanup := setupFS()
+	defer cleanup()
 	t.Run("catalogue", func(t *testing.T) {
 		shapes := make([]string, 0, len(c13ShapeTab))
 		for n := range c13ShapeTab {
@@ -391,6 +415,9 @@ func TestC13(t *testing.T) {
 		for _, e := range c13Entries {
 			for _, sh := range shapes {
 				for _, r := range rules {
+					if e == "FSPaths" && sh != "string" {
+						continue // this entry brings its own values: one pass over the rule texts is enough
+					}
 					idx++
 					if idx%nshard != shard {
 						continue
@@ -589,6 +616,8 @@ func genValueDesc(t *rapid.T, ty desc.T, depth int) desc.V {
 }
 
 func TestC13Replay(t *testing.T) {
+	cleanup := setupFS()
+	defer cleanup()
 	for _, f := range ev.ReplayFiles() {
 		rp, err := ev.LoadReplay(f)
 		if err != nil {
